@@ -59,6 +59,10 @@ type Method struct {
 	NullDecoy   bool   // the body uses the null literal outside return statements
 	Body        []string
 	OverloadOf  string // this method is a second declaration of that name (one more parameter)
+	IsCtor      bool   // the constructor of the class (Class.Ctor; never part of Class.Methods)
+	// ParamAnno: the first PARAMETER carries @Nullable / @CheckForNull. That says nothing about what the method
+	// returns: a method that is not nullable otherwise must not be listed.
+	ParamAnno string
 
 	// planted unqualified calls of methods of the same class (first lines of the body)
 	Calls         []PlantedCall
@@ -111,6 +115,7 @@ type Class struct {
 	Imports   []string
 	Fields    []string
 	Methods   []*Method
+	Ctor      *Method // optional constructor; it makes calls. Whether it counts as a "method" is left open
 	RelPath   string
 	Text      string
 }
@@ -142,6 +147,10 @@ type Opts struct {
 	NullCompare bool
 	// DefaultPkg lets some files have no package declaration.
 	DefaultPkg bool
+	// Ctors lets a class declare one constructor (with planted calls of methods of the class).
+	Ctors bool
+	// ParamAnnos lets first parameters of methods and constructors carry @Nullable / @CheckForNull.
+	ParamAnnos bool
 	// Overloads lets a class declare a second method with the name of another one and one more parameter.
 	// The overload is a plain int method: never nullable (two nullable overloads of one name are out of scope).
 	Overloads bool
@@ -307,9 +316,34 @@ func (g *gen) fillClass(c *Class) {
 			c.Methods = append(c.Methods, ov)
 		}
 	}
+	if g.o.Ctors && r.Chance(1, 3) {
+		ct := &Method{Name: c.Name, IsCtor: true, Params: [][2]string{{r.Pick([]string{"Object", "String"}), "p"}, {"boolean", "flag"}, {"int", "n"}},
+			Body: []string{"int seen = n + 1;"}}
+		switch c.Kind {
+		case KindUtil:
+			ct.Mods = []string{"private"}
+		case KindAbstract:
+			ct.Mods = []string{"protected"}
+		default:
+			if a := r.Pick([]string{"public", "public", ""}); a != "" {
+				ct.Mods = []string{a}
+			}
+		}
+		ct.Head = append(ct.Head, ct.Mods...)
+		if g.o.ParamAnnos && r.Chance(1, 2) {
+			ct.ParamAnno = r.Pick([]string{"Nullable", "CheckForNull"})
+		}
+		c.Ctor = ct
+	}
 	g.plantCalls(c)
 	need := map[string]bool{}
+	if c.Ctor != nil && c.Ctor.ParamAnno != "" {
+		need["javax.annotation."+c.Ctor.ParamAnno] = true
+	}
 	for _, m := range c.Methods {
+		if m.ParamAnno != "" {
+			need["javax.annotation."+m.ParamAnno] = true
+		}
 		for _, h := range m.Head {
 			switch {
 			case h == "@Nullable":
@@ -408,6 +442,9 @@ func (g *gen) fillMethod(c *Class, m *Method, static, abstract bool) {
 	if !abstract {
 		g.fillBody(m, isRef)
 	}
+	if g.o.ParamAnnos && r.Chance(1, 5) {
+		m.ParamAnno = r.Pick([]string{"Nullable", "CheckForNull"})
+	}
 
 	// ---- null annotation and decoy annotations
 	var annos []string
@@ -504,8 +541,12 @@ func (g *gen) fillMethod(c *Class, m *Method, static, abstract bool) {
 // `int both = f(p, flag, n) + f(p, flag, n);`), and the same callee again on another line.
 func (g *gen) plantCalls(c *Class) {
 	r := g.r
-	for _, m := range c.Methods {
-		if m.Abstract || !r.Chance(1, 2) {
+	callers := append([]*Method(nil), c.Methods...)
+	if c.Ctor != nil {
+		callers = append(callers, c.Ctor)
+	}
+	for _, m := range callers {
+		if m.Abstract || (!m.IsCtor && !r.Chance(1, 2)) {
 			continue
 		}
 		var callees []*Method
@@ -727,7 +768,11 @@ func render(c *Class) string {
 	for _, f := range c.Fields {
 		sb.WriteString("    " + f + "\n")
 	}
-	for _, m := range c.Methods {
+	members := c.Methods
+	if c.Ctor != nil {
+		members = append([]*Method{c.Ctor}, c.Methods...)
+	}
+	for _, m := range members {
 		sb.WriteString("\n")
 		for _, a := range m.Head[:m.OwnLine] {
 			sb.WriteString("    " + a + "\n")
@@ -738,10 +783,18 @@ func render(c *Class) string {
 			sb.WriteString(strings.Join(rest, " ") + " ")
 		}
 		var ps []string
-		for _, p := range m.Params {
-			ps = append(ps, p[0]+" "+p[1])
+		for i, p := range m.Params {
+			if i == 0 && m.ParamAnno != "" {
+				ps = append(ps, "@"+m.ParamAnno+" "+p[0]+" "+p[1])
+			} else {
+				ps = append(ps, p[0]+" "+p[1])
+			}
 		}
-		sb.WriteString(m.Ret + " " + m.Name + "(" + strings.Join(ps, ", ") + ")")
+		if m.IsCtor {
+			sb.WriteString(m.Name + "(" + strings.Join(ps, ", ") + ")")
+		} else {
+			sb.WriteString(m.Ret + " " + m.Name + "(" + strings.Join(ps, ", ") + ")")
+		}
 		if m.Abstract {
 			sb.WriteString(";\n")
 			continue
